@@ -39,6 +39,8 @@ def make_data(cfg):
         if cfg["ties"]:
             X = np.round(X * 2).astype(np.float32)
         Q = rng.standard_normal((cfg["nq"], dim)).astype(np.float32)
+        if cfg["ties"]:
+            Q = np.round(Q * 2).astype(np.float32)        # lattice queries: exactly zero margins in the tree descent (random tie-breaks)
         U = rng.standard_normal((cfg["nu"], dim)).astype(np.float32)
     else:
         X = sp.random(n, dim, density=0.3, format="csr", dtype=np.float32, random_state=cfg["data_seed"])
@@ -84,7 +86,7 @@ def gen_cfg(rng, tier, i):
         "low_memory": bool(rng.integers(2)), "dprob": float(rng.choice([1.0, 0.5, 0.5])), "pbq": bool(rng.integers(2)),
         "tree_init": bool(rng.integers(4) > 0), "threads": int(rng.choice([2, 3, 4, 8, maxt, maxt])),
         "nq": 400, "nu": 100, "qk": int(rng.choice([5, 10])), "eps": float(rng.choice([0.0, 0.1, 0.3])),
-        "update": bool(rng.integers(2)) and kind == "dense", "ties": bool(rng.integers(3) == 0),
+        "update": bool(rng.integers(2)) and kind == "dense", "ties": bool(rng.integers(3) == 0) or i == 1,
     }
 
 
